@@ -5,6 +5,7 @@ from harness import gen_c17 as G
 from harness.impl_tbl import impl_tbl_op
 
 WARM_TWINS = {"quick": 0.02, "thorough": 0.05}      # engine: call-history twins (harness/warm.py)
+DECOY_TWINS = {"quick": 0.02, "thorough": 0.05}     # engine: decoy twins (harness/decoy.py)
 ID = "C17"
 LEAN_MODULE = "BioCantor.Props.C17"
 DESIGN_REF = "4/C17"
